@@ -387,6 +387,17 @@ def run(model: RepoModel, rep, tier: str):
     generic2.check_per_iteration_values(model, rep, "C02.R7", seven_rels)
     rep.rule("C02.R8", "compound assignment keeps operand order in every frontend: `t op= e` and `place op= e` lower to old-value <op> e", 40)
     generic2.check_augmented_operand_order(model, rep, "C02.R8", seven_rels, adjudicated=AUG_ADJUDICATED)
+    # declarations are one of the elements the language-independent analyses consume: the hoisting pass shared by the frontends must not
+    # lose one (rules shared with C01.R9 / C05.R9)
+    from .c05 import _r9_hoisting
+    _r9_hoisting(model, rep, "C02.R9")
+    import re as _re
+    from .. import generic3
+    rep.rule("C02.R10", "no part of a loop or branch is lost in a brace language: the body NODE of for/while/do/if is handed to parse() (a brace-less body "
+                        "that is a statement of its own keeps its handler), and a field the grammar lets repeat is read with the plural accessor", 40)
+    generic3.check_bodies_parsed_whole(model, rep, "C02.R10", [f"lang/{l}_parser.py" for l in ("c", "java", "javascript", "typescript", "php") if f"lang/{l}_parser.py" in model.modules],
+                                       func_filter=lambda f_: _re.search(r"(^|_)(for|while|do|if|foreach|else)(_|$)", f_.name) is not None)
+    generic3.check_repeated_fields(model, rep, "C02.R10")
 
 
 def _scope_builder_ops(model: RepoModel) -> Set[str]:
